@@ -13,7 +13,7 @@ chk = importlib.util.module_from_spec(spec)
 loader.exec_module(chk)
 chk.prepare_module("/repo")
 for pid, cfg in chk.PROPS.items():
-    if not cfg.get("claimed"):
+    if pid not in set(open("CLAIMED.txt").read().split()):
         continue
     out, s = chk.build(pid, cfg)
     print("built %s in %.1fs" % (pid, s))
